@@ -81,6 +81,15 @@ impl Universe {
                 lines.push(e);
             }
         }
+        // lines that alias a mapping constant modulo 2^32 / 2^63 (a narrowing cast in a reader would confuse them)
+        for &c in consts.iter().filter(|c| **c > 0 && **c <= 200) {
+            for base in [1u64 << 32, 1u64 << 63] {
+                let l = base + c;
+                if !lines.contains(&l) {
+                    lines.push(l);
+                }
+            }
+        }
         u.lines = lines.iter().map(|l| *l as usize).collect();
         let mut short: Vec<usize> = vec![0, 1];
         if let Some(c) = consts.iter().find(|c| **c > 1) {
